@@ -664,6 +664,21 @@ func (self *Node) getFrontierNodes() []*Node {
 	return self.frontierNodes.GetNodes()
 }
 
+// sortedSubnodes returns the subnodes in sorted order of their names, so that
+// anything which is accumulated over them is repeatable.
+func (self *Node) sortedSubnodes() []Nodable {
+	ids := make([]string, 0, len(self.subnodes))
+	for id := range self.subnodes {
+		ids = append(ids, id)
+	}
+	sort.Strings(ids)
+	nodes := make([]Nodable, len(ids))
+	for i, id := range ids {
+		nodes[i] = self.subnodes[id]
+	}
+	return nodes
+}
+
 func (self *Node) allNodes() []*Node {
 	// Enumerate and sort the keys in subnodes first.
 	// This ensures a stable chirality for the dag UI.
